@@ -37,7 +37,7 @@ void use()
     fwd_twice ft;
     ft.twice([](std::vector<std::string>& x) { x.push_back("a"); });
     ft.once([](std::vector<std::string>& x) { x.push_back("a"); });
-    (void)ft.steal(0);
+    (void)ft.steal(ft.b, 0);
     (void)ft.copy_then_move(0);
     bad_cv f;
     f.set();
